@@ -1,5 +1,7 @@
 (* Driver entry points for C04: the compile-time analyses of Model/Analysis.v on an exported tree. *)
-From Verif Require Import Base.Prelude Base.Wire Model.Tree Model.Analysis.
+From Coq Require Import FMapPositive.
+From Verif Require Import Base.Prelude Base.Wire Base.Utf8 Model.Tree Model.CharClass Model.Analysis Model.Analysis2
+     Extract.Drv16.
 
 Definition e_facts (f : facts_t) : list Z :=
   [f_min f; f_max f; f_lead f; f_trail f; f_mode f] ++ e_zlist (f_prefix f).
@@ -24,6 +26,101 @@ Definition run_facts (args : list Z) : list Z :=
   | _ => bad_case
   end.
 
+(* ---- legs 402-406: the analyses of Model/Analysis2.v -------------------------------------------------
+   common input: oracle tables (Drv16 format: category ids, (rune, category mask) pairs, (rune, SimpleFold,
+   ToLower) triples), (rune, participatesInCaseConversion) pairs, the classes of the set ids in id order,
+   the tree.  Every leg is evaluated with both defaults for oracle questions outside the shipped tables:
+   the answers must agree, otherwise the case is reported as oracle_incomplete. *)
+Record a2_in := { a2_cat : Z -> Z -> bool; a2_part : Z -> bool; a2_lower : Z -> Z; a2_sets : list cls; a2_tree : node }.
+
+Definition a2_part_tbl (dflt : bool) (m : PositiveMap.t Z) (r : Z) : bool :=
+  match PositiveMap.find (rkey r) m with Some v => negb (v =? 0) | None => dflt end.
+
+Definition d_a2 (dflt : bool) : dec a2_in :=
+  dlet o <- d_oracle_d dflt ;
+  dlet pc <- d_list (d_pair d_z d_z) ;
+  dlet ss <- d_list d_cls ;
+  dlet t <- d_tree ;
+  d_ret {| a2_cat := or_cat o; a2_part := a2_part_tbl dflt (build_map pc); a2_lower := or_lower o; a2_sets := ss; a2_tree := t |}.
+
+Definition e_opt {A} (e : A -> list Z) (o : option A) : list Z := match o with Some a => 1 :: e a | None => [0] end.
+Definition e_cls0 (c : cls) : list Z := e_cls (strip_ascii c).
+
+(* 402: -> find_first_char_class, then the theorem hypotheses lits_ok of the tree and cls_good_b of every exported class *)
+Definition run_ffcc_d (dflt : bool) (args : list Z) : list Z :=
+  match d_a2 dflt args with
+  | Some (a, []) => e_opt e_cls0 (find_first_char_class (a2_cat a) (a2_sets a) (a2_tree a)) ++ e_bool (lits_ok (a2_tree a)) ++ e_bool (forallb cls_good_b (a2_sets a))
+  | _ => bad_case
+  end.
+
+Definition e_fdset (s : fdset) : list Z :=
+  e_cls0 (fs_set s) ++ e_zlist (fs_chars s) ++ e_bool (fs_neg s)
+  ++ (match fs_range s with Some (a, b) => [1; a; b] | None => [0; 0; 0] end) ++ [fs_dist s].
+
+(* 403: thorough -> find_fixed_distance_sets sorted by distance, then find_fixed_distance_string *)
+Definition run_fds_d (dflt : bool) (args : list Z) : list Z :=
+  match (dlet a <- d_a2 dflt ; dlet th <- d_bool ; d_ret (a, th)) args with
+  | Some ((a, th), []) =>
+      let l := find_fixed_distance_sets (a2_cat a) (a2_sets a) th (a2_tree a) in
+      e_list e_fdset (fds_sort l)
+      ++ e_opt (fun sd : list Z * Z => e_zlist (fst sd) ++ [snd sd]) (find_fixed_distance_string l)
+  | _ => bad_case
+  end.
+
+(* 404: -> find_prefixes false, find_prefixes true (as UTF-8 byte strings), ci_prefix *)
+Definition run_prefixes_d (dflt : bool) (args : list Z) : list Z :=
+  match d_a2 dflt args with
+  | Some (a, []) =>
+      let fp := fun ic => e_opt (e_list (fun p => e_zlist (encode_string p)))
+                                (find_prefixes (a2_cat a) (a2_part a) (a2_sets a) ic (a2_tree a)) in
+      fp false ++ fp true ++ e_zlist (ci_prefix (a2_cat a) (a2_part a) (a2_sets a) (a2_tree a))
+  | _ => bad_case
+  end.
+
+Definition e_lal (l : lal) : list Z :=
+  lal_loop l :: match lal_what l with
+                | LalChar c => [0; c]
+                | LalString b ic => 1 :: e_zlist b ++ e_bool ic
+                | LalChars cs => 2 :: e_zlist cs
+                end.
+Definition e_oz (o : option Z) : list Z := match o with Some i => [i + 1] | None => [0] end.
+Definition e_lm_alt (a : lm_alt) : list Z :=
+  e_zlist (la_lit a) ++ e_oz (la_set a) ++ e_oz (la_lead a) ++ e_oz (la_trail a) ++ [la_min a; la_max a]
+  ++ e_bool (la_req_before a) ++ e_bool (la_req_after a).
+
+(* 405: -> find_lit_after_loop, find_landmark_chain *)
+Definition run_lal_d (dflt : bool) (args : list Z) : list Z :=
+  match d_a2 dflt args with
+  | Some (a, []) =>
+      let lr := find_lit_after_loop (a2_cat a) (a2_part a) (a2_sets a) (a2_tree a) in
+      e_res (e_opt e_lal) lr
+      (* hypothesis of C04_literal_after_loop_sound: a published case-sensitive string is valid UTF-8 *)
+      ++ e_bool (match lr with
+                 | Ok (Some l) => match lal_what l with LalString b false => valid_utf8 b | _ => true end
+                 | _ => true
+                 end)
+      ++ e_opt (fun c : Z * list (list lm_alt) => fst c :: e_list (e_list e_lm_alt) (snd c))
+               (find_landmark_chain (a2_cat a) (a2_sets a) (a2_tree a))
+  | _ => bad_case
+  end.
+
+(* 406: -> first_chars_prefix *)
+Definition run_fc_d (dflt : bool) (args : list Z) : list Z :=
+  match d_a2 dflt args with
+  | Some (a, []) =>
+      e_res (e_opt (fun p : cls * bool => e_cls0 (fst p) ++ e_bool (snd p)))
+            (first_chars_prefix (a2_cat a) (a2_lower a) (a2_sets a) (a2_tree a))
+  | _ => bad_case
+  end.
+
+Definition both (f : bool -> list Z -> list Z) (args : list Z) : list Z :=
+  let a := f false args in if zlist_eqb a (f true args) then a else oracle_incomplete.
+
 Definition run04 (leg : Z) (args : list Z) : list Z :=
   if leg =? 401 then run_facts args
+  else if leg =? 402 then both run_ffcc_d args
+  else if leg =? 403 then both run_fds_d args
+  else if leg =? 404 then both run_prefixes_d args
+  else if leg =? 405 then both run_lal_d args
+  else if leg =? 406 then both run_fc_d args
   else bad_case.
